@@ -10,7 +10,7 @@ import z3
 
 from psvc.contract import Contract, Clause, register, T, And, Or, Not, Implies, If, asserted
 from psvc import spec
-from psvc.timeabs import TD, DT
+from psvc.timeabs import span, instant, us_of
 from contracts.task import make_task
 from contracts.task_constraint import assume_valid_task
 from contracts.resource import decode
@@ -58,9 +58,11 @@ class BuildSolution(Contract):
             pb = ps.SchedulingProblem(name="pb")
         if case["cal"] != "none":
             P.assume(P.int("dt") >= 1)
-            pb.delta_time = TD(P.int("dt"))
+            # the length of one period and the calendar origin, in microseconds (abstract calendar values under
+            # the engine, the real datetime classes natively)
+            pb.delta_time = span(P.int("dt"), P.symbolic)
             if case["cal"] == "delta+start":
-                pb.start_time = DT(P.int("t0"))
+                pb.start_time = instant(P.int("t0"), P.symbolic)
         res = None
         if case["req"] in ("static", "delayed", "dynamic"):
             res = ps.Worker(name="w")
@@ -140,9 +142,13 @@ class BuildSolution(Contract):
             C01.append(Implies(sch, And(*tm)))
             # calendar times
             if case["cal"] != "none":
-                dt = T(pb.delta_time.us)
-                t0 = T(pb.start_time.us) if case["cal"] == "delta+start" else z3.IntVal(0)
-                C11.append(Implies(sch, And(T(ts.start_time.us) == t0 + s * dt, T(ts.duration_time.us) == d * dt, T(ts.end_time.us) == t0 + e * dt)))
+                dt = T(us_of(pb.delta_time))
+                t0 = T(us_of(pb.start_time)) if case["cal"] == "delta+start" else z3.IntVal(0)
+                try:
+                    cal = And(T(us_of(ts.start_time)) == t0 + s * dt, T(us_of(ts.duration_time)) == d * dt, T(us_of(ts.end_time)) == t0 + e * dt)
+                except TypeError:  # a field that is not a calendar value
+                    cal = z3.BoolVal(False)
+                C11.append(Implies(sch, cal))
             # assignments <-> assigned resources
             names = list(ts.assigned_resources)
             C11.append(z3.BoolVal(len(set(names)) == len(names)))
